@@ -17,12 +17,26 @@ RULE = ('stream args: selection arguments (all/empty/comma strings with blanks/l
         'data_lost, weights=, dumps/channels/pol/ants/corrprods/reset); after EVERY call d.raw_flags, d.flags, d.vis '
         'and d.weights are compared with the extracted model; a case is one (data set, history prefix), non-trivial '
         'when the data set has a lost chunk or an invalid correction inside the current selection, distinct by '
-        '(configuration, step)')
+        '(configuration, step).  stream concat: ConcatenatedDataSet of 2-3 members (v4+v4, v3+v3, v2+v2, v3+v4; stored '
+        'flag bytes cover 0..255 in every member; v4 members with a lost chunk or opened with applycal; members '
+        'optionally pre-selected on their own with flags= / weights= before the concatenation; shuffled input order) '
+        'under a history of 6-20 select() calls on the whole (flags= in every spelling incl. the empty ones \'\', [], (); '
+        'weights=; dumps / channels / pol / reset; calls without flags=) and directly on members; right after '
+        'construction and after EVERY call the glued flags / weights / vis, every member\'s _flags_select / '
+        '_weights_select, its own flags and (v4) raw_flags are compared with the model of the selection plumbing '
+        '(wire 162) and with the spec mask of the last flags= given to the whole; a case is one (concatenation, '
+        'history prefix), non-trivial when some selected raw byte is non-zero, distinct by (configuration, step)')
 ASSUMPTIONS = ['v2/v3 files without a flags_description table (the default description is flags.NAMES)',
                'v4cal stream: which samples carry an invalid correction is computed from the generated cal solutions '
                '(G constant in time, B piecewise constant in time with NaN only at band edges or for whole inputs); '
                'the general derivation of corrections from solutions is C13/C14',
-               'v4cal stream: correction factors are powers of two, so vis and weights are compared exactly']
+               'v4cal stream: correction factors are powers of two, so vis and weights are compared exactly',
+               'concat stream: all members of a concatenation lie in one subarray and one spectral window (checked when '
+               'the fixture is built); the time / frequency / product selection of the whole is taken from the data set '
+               '(dumps, channels, _corrprod_keep) - that it is right is C02 / C19; vis and weights are compared with what '
+               'the freshly concatenated data set showed (the property only says they do not change)',
+               'selection arguments are the documented spellings: a string, or a list / tuple of strings (not None, not a '
+               'one-shot iterator)']
 
 DOC = ['reserved0', 'static', 'cam', 'data_lost', 'ingest_rfi', 'predicted_rfi', 'cal_rfi', 'postproc']
 
@@ -164,6 +178,7 @@ def check_selection(ctx, fmt, d, stored, lost, arg, mouts):
 
 
 def run(ctx):
+    del _INCOQ[:]
     args = gen_args(ctx)
     mcases = [[16, [1, wire_arg(a)]] for a in args]
     mouts = ctx.model(mcases) if ctx.model_ok else None
@@ -213,6 +228,29 @@ def run(ctx):
     n = ctx.scale(14, 150)
     for i in range(n):
         run_v4cal(ctx, gen_v4cal(ctx.rng, ctx.tier, force=FORCED[i] if i < len(FORCED) else None))
+    # concatenated data sets (v4+v4, v3+v3, v2+v2, v3+v4) under histories of flag / weight selections
+    for fn in sorted(glob.glob(os.path.join(corpus, '*.replay.json'))):
+        case = json.load(open(fn)).get('case', {})
+        if case.get('stream') == 'concat':
+            run_concat(ctx, case['cfg'])
+            ctx.count('concat:corpus')
+    for f in ctx.findings:
+        w = f.get('witness') or {}
+        if w.get('stream') == 'concat':
+            run_concat(ctx, w['cfg'])
+    n = ctx.scale(10, 90)
+    for i in range(n):
+        run_concat(ctx, gen_concat(ctx.rng, ctx.tier, force=CONCAT_FORCED[i] if i < len(CONCAT_FORCED) else None))
+    if ctx.tier == 'thorough' and ctx.model_ok and not ctx.searching:
+        # extraction cross-check: the same cases through vm_compute inside Coq
+        from vh import core
+        sample = _INCOQ[:40] + list(zip(mcases[:40], (mouts or [])[:40]))
+        outs = core.run_model_in_coq([c for c, _ in sample], 'c16')
+        for (c, o), oc in zip(sample, outs):
+            if o != oc:
+                ctx.disagree('what=extraction_vs_coq;wire=%d' % c[0], dict(wire=c), o, oc,
+                             'extracted OCaml model and vm_compute inside Coq differ', kind='tie')
+        ctx.extra['cases_rechecked_in_coq'] = len(sample)
 
 
 def spec_py(a):
@@ -229,9 +267,11 @@ def spec_py(a):
 def interleave(ctx, fmt, d, stored, lost, base_vis):
     rng = ctx.rng
     n = ctx.scale(12, 120)
-    d.select(flags='all')
+    d.select(flags='all', weights='all')
     d.select()
     cur = 'all'     # the flag selection in force: the last flags= argument (it survives every other select() call)
+    trace = [(dict(flags='all', weights='all'), _internal(fmt, d))]    # (flags= / weights= of the call, internal state after it)
+    w_all = np.asarray(d.weights[:]).copy()
     for step in range(n):
         kind = rng.choice(['dumps', 'channels', 'ants', 'reset', 'pol'])
         try:
@@ -253,17 +293,17 @@ def interleave(ctx, fmt, d, stored, lost, base_vis):
         v0 = np.asarray(d.vis[:]).copy()
         r0 = np.asarray(d.raw_flags[:]).copy() if fmt == 'v4' else None
         arg = rng.choice(['cam', 'all', '', 'static,cal_rfi', ['data_lost'], 'bogus'])
-        wsel = rng.choice([None, 'all', ''])
+        wsel = rng.choice([None, None, 'all', '', [], 'precision', 'nope'])
         keep = rng.random() < 0.3      # no flags= in this step: the previous flag selection must still be in force
         if keep:
             arg = cur
+        kw = {} if keep else dict(flags=arg)
+        if wsel is not None:
+            kw['weights'] = wsel
         try:
-            if keep:
-                d.select(weights=wsel) if (fmt == 'v3' and wsel is not None) else None
-            elif wsel is None:
-                d.select(flags=arg)
-            else:
-                d.select(flags=arg, weights=wsel) if fmt == 'v3' else d.select(flags=arg)
+            if kw:
+                d.select(**kw)
+                trace.append((kw, _internal(fmt, d)))
         except Exception as e:
             ctx.disagree('fmt=%s;what=select_flags_raises;exc=%s' % (fmt, type(e).__name__),
                          dict(fmt=fmt, arg=canon_arg(arg)), repr(e), None, 'select(flags=...) raised')
@@ -294,6 +334,32 @@ def interleave(ctx, fmt, d, stored, lost, base_vis):
         ctx.note_case((fmt, 'hist', step, kind, canon_arg(arg), before[0], before[1]), sample=None)
         ctx.count('history_steps')
     d.select()
+    trace.append(({}, _internal(fmt, d)))
+    # the internal state (mask, weight indices) after every call against the faithful model of select() (wire 162)
+    if ctx.model_ok:
+        hw = [[_wire_opt(k, 'flags'), _wire_opt(k, 'weights')] for k, _ in trace]
+        mo = ctx.model([[162, [1, FMT_CODE[fmt], hw]]])[0]
+        for j, (k, (mask, wts)) in enumerate(trace):
+            row = mo[j + 1] if isinstance(mo, list) and len(mo) == len(trace) + 1 else None
+            if row is None or mask != row[0] or (fmt != 'v4' and wts != row[1]) or row[0] != row[2]:
+                ctx.disagree('fmt=%s;what=selection_state_after_history;vs=model' % fmt,
+                             dict(fmt=fmt, calls=[{a: canon_arg(b) for a, b in kk.items()} for kk, _ in trace[:j + 1]]),
+                             [mask, wts], row, '_flags_select / _weights_select after a history of select() calls differ '
+                             'from the model of DataSet.select', spec=row[2] if row else None, kind='tie')
+                break
+        ctx.count('selection_state_steps', len(trace))
+    if fmt != 'v4':
+        d.select(weights='')
+        w0 = np.asarray(d.weights[:])
+        d.select(weights='all')
+        if not (np.array_equal(w0, np.ones_like(w_all)) and np.array_equal(np.asarray(d.weights[:]), w_all)
+                and not np.array_equal(w_all, w0)):
+            ctx.disagree('fmt=%s;what=weights_selection' % fmt, dict(fmt=fmt, weights=''), float(w0.ravel()[0]), 1.0,
+                         "weights are not 1.0 under weights='' / not the stored ones again under weights='all'", kind='tie')
+
+
+def _internal(fmt, d):
+    return (int(np.asarray(d._flags_select).ravel()[0]), [int(x) for x in d._weights_select] if fmt != 'v4' else [])
 
 
 def _recover(d):
@@ -314,6 +380,9 @@ def replay(ctx, doc):
     case = doc.get('case', {})
     if case.get('stream') == 'v4cal':
         run_v4cal(ctx, case['cfg'])
+        return
+    if case.get('stream') == 'concat':
+        run_concat(ctx, case['cfg'])
         return
     tmp, sets = build(ctx)
     try:
@@ -345,11 +414,13 @@ def _compositions(rng, n, maxparts=3):
     return [b - a for a, b in zip([0] + cuts, cuts + [n])]
 
 
-def gen_v4cal(rng, tier='quick', force=None):
+def gen_v4cal(rng, tier='quick', force=None, fixed=None):
     force = force or {}
     n_ant = rng.choice([2, 2, 3])
-    ants = ['m%03d' % a for a in range(n_ant)]
     T, F = rng.randint(3, 5), rng.randint(4, 8)
+    if fixed:       # a member of a concatenation: sizes are given
+        n_ant, T, F = fixed.get('n_ant', n_ant), fixed.get('T', T), fixed.get('F', F)
+    ants = ['m%03d' % a for a in range(n_ant)]
     calmode = force.get('calmode') or rng.choice(['none', 'G', 'G', 'GB', 'GB', 'B'])
     want_nan = force.get('nan', rng.random() < 0.85)
     pols = rng.choice([['h', 'v'], ['v', 'h']])
@@ -549,29 +620,44 @@ def _bit_names(diff):
     return '+'.join(names) or 'none'
 
 
-def run_v4cal(ctx, cfg):
-    from fixtures import c13cal
-    T, F, ants = cfg['T'], cfg['F'], cfg['ants']
-    bls = v4.bls_ordering_for(ants)
+def _v4cal_bls(cfg):
+    bls = v4.bls_ordering_for(cfg['ants'])
     if cfg.get('shuffle_bls'):
         import random
         random.Random(cfg['seed']).shuffle(bls)
+    return bls
+
+
+def open_v4cal(cfg, tmp, **kw):
+    """The v4 data set of a v4cal configuration (stored flag bytes, chunking, lost chunks, cal products, applycal)."""
+    from fixtures import c13cal
+    T, F, ants = cfg['T'], cfg['F'], cfg['ants']
+    bls = _v4cal_bls(cfg)
     B = len(bls)
     rs = np.random.RandomState(cfg['seed'])
     fl = rs.randint(0, 256, size=(T, F, B)).astype(np.uint8)
     fl[0, :, :B // 2] = 0                  # clean samples
     fl[-1] &= np.uint8(0x77)               # samples that get data_lost / postproc only by derivation
     chunks = {k: (tuple(c[0]), tuple(c[1])) + (((B,),) if k != 'weights_channel' else ()) for k, c in cfg['chunks'].items()}
-    hook = c13cal.cal_hook(_cal_telstate(cfg)) if cfg['applycal'] else None
+    hook = None
+    if cfg['applycal']:
+        hook = c13cal.cal_hook(_cal_telstate(cfg), **({'first_timestamp': kw['first_timestamp']} if 'first_timestamp' in kw else {}))
+    return v4.build_v4(T=T, F=F, ants=ants, seed=cfg['seed'], arrays={'flags': fl}, chunks=chunks,
+                       bandwidth=F * 1048576.0, center_freq=1284e6, bls_ordering=bls,
+                       lose=[('sdp_l0', n, tuple(i) + ((0,) if n != 'weights_channel' else ())) for n, i in cfg['lose']],
+                       telstate_hook=hook, archived_override=['sdp_l0', 'cal'] if hook else None,
+                       open_kwargs=dict(applycal=list(cfg['applycal'])), tmp=tmp, **kw)
+
+
+def run_v4cal(ctx, cfg):
+    T, F, ants = cfg['T'], cfg['F'], cfg['ants']
+    bls = _v4cal_bls(cfg)
+    B = len(bls)
     x = None
     key = ('v4cal', cfg['seed'], T, F, len(ants), cfg['calmode'])
     try:
         try:
-            x = v4.build_v4(T=T, F=F, ants=ants, seed=cfg['seed'], arrays={'flags': fl}, chunks=chunks,
-                            bandwidth=F * 1048576.0, center_freq=1284e6, bls_ordering=bls,
-                            lose=[('sdp_l0', n, tuple(i) + ((0,) if n != 'weights_channel' else ())) for n, i in cfg['lose']],
-                            telstate_hook=hook, archived_override=['sdp_l0', 'cal'] if hook else None,
-                            open_kwargs=dict(applycal=list(cfg['applycal'])), tmp=v4.scratch_dir('c16cal'))
+            x = open_v4cal(cfg, v4.scratch_dir('c16cal'))
             d = x.d
             if cfg['applycal'] and sorted(d.applycal_products) != sorted(cfg['applycal']):
                 ctx.disagree('stream=v4cal;what=products_dropped', dict(stream='v4cal', cfg=cfg),
@@ -673,3 +759,379 @@ def run_v4cal(ctx, cfg):
     finally:
         if x is not None:
             v4.cleanup(x)
+
+
+# ---------------------------------------------------------------------------------------------------------------
+# stream concat: ConcatenatedDataSet of v4 / v3 / v2 members under histories of flag / weight selections
+# ---------------------------------------------------------------------------------------------------------------
+FMT_CODE = {'v4': 4, 'v3': 3, 'v2': 2}
+_INCOQ = []     # (wire case, output of the extracted model): a sample is re-evaluated inside Coq in the thorough tier
+# every run walks each kind of concatenation through this history (the demo of every spelling of a selection,
+# the empty ones after non-empty ones, with calls without flags= in between)
+CONCAT_FIXED = [{'flags': 'cam'}, {'flags': ''}, {'dumps': [1, 4]}, {'flags': 'static,data_lost'}, {'flags': []},
+                {'flags': ['postproc', 'reserved0'], 'weights': ''}, {'flags': 'cam,bogus'}, {'flags': {'tuple': []}},
+                {'reset': 1}, {'flags': list(DOC), 'weights': 'all'}, {'flags': '', 'weights': []}, {'flags': 'bogus'},
+                {'weights': 'precision'}, {'flags': 'ingest_rfi, cal_rfi'}, {'flags': [], 'weights': 'nope'},
+                {'channels': [1, 3]}, {'flags': 'all', 'weights': 'all'}]
+CONCAT_FORCED = [dict(fmts=['v4', 'v4']), dict(fmts=['v3', 'v3']), dict(fmts=['v2', 'v2']), dict(fmts=['v3', 'v4'])]
+WEIGHT_POOL = ['all', '', [], 'precision', ['precision'], 'nope', 'precision,nope', {'tuple': []}, ' precision ']
+
+
+def _py_arg(v):
+    """selection argument as written in a configuration -> the Python value handed to select()."""
+    if isinstance(v, dict):
+        return tuple(v['tuple'])
+    return v if isinstance(v, str) else list(v)
+
+
+def _wire_opt(st, key):
+    return [wire_arg(_py_arg(st[key]))] if key in st else []
+
+
+def _sel_class(a):
+    a = _py_arg(a)
+    if isinstance(a, str):
+        names = [] if not a else (DOC if a == 'all' else [n.strip() for n in a.split(',')])
+        if a == 'all':
+            return 'all'
+    else:
+        names = list(a)
+    if not names:
+        return 'empty'
+    return 'named' if any(n in DOC for n in names) else 'unknown_only'
+
+
+def gen_concat(rng, tier='quick', force=None):
+    force = force or {}
+    fmts = force.get('fmts')
+    if fmts is None:
+        kind = rng.choice(['v4', 'v4', 'v3', 'v2', 'mixed'])
+        k = rng.choice([2, 2, 3])
+        fmts = sorted([rng.choice(['v3', 'v4']) for _ in range(k)]) if kind == 'mixed' else [kind] * k
+        if kind == 'mixed' and len(set(fmts)) == 1:
+            fmts[0], fmts[-1] = 'v3', 'v4'
+    k = len(fmts)
+    F = rng.randint(3, 6)
+    T = [rng.randint(2, 5) for _ in range(k)]
+    pre = []
+    for n in range(k):
+        steps = []
+        if rng.random() < (0.8 if force else 0.5):       # the member had its own selection before it was concatenated
+            for _ in range(rng.randint(1, 2)):
+                st = {}
+                if rng.random() < 0.8:
+                    st['flags'] = rng.choice(['cam', '', 'static,cal_rfi', ['data_lost'], 'bogus', []])
+                if rng.random() < 0.4 or not st:
+                    st['weights'] = rng.choice(['', 'precision', []])
+                steps.append(st)
+        pre.append(steps)
+    order = list(range(k))
+    rng.shuffle(order)
+    hist = []
+    for _ in range(rng.randint(6, 10)):
+        st = {}
+        if rng.random() < 0.12:                          # behind the back of the whole: directly on one member
+            st['member'] = rng.randrange(k)
+            if rng.random() < 0.8:
+                st['flags'] = rng.choice(FLAG_POOL)
+            if rng.random() < 0.4 or 'flags' not in st:
+                st['weights'] = rng.choice(WEIGHT_POOL)
+            hist.append(st)
+            continue
+        if rng.random() < 0.7:
+            a = rng.choice(FLAG_POOL + ['', [], {'tuple': []}, ''])
+            if rng.random() < 0.15:
+                names = rng.sample(DOC, rng.randint(1, 7))
+                a = names if rng.random() < 0.5 else ','.join(names)
+            st['flags'] = a
+        if rng.random() < 0.3:
+            st['weights'] = rng.choice(WEIGHT_POOL)
+        r = rng.random()
+        if r < 0.15:
+            a = rng.randrange(sum(T) - 1)
+            st['dumps'] = [a, rng.randint(a + 1, sum(T))]
+        elif r < 0.3:
+            a = rng.randrange(F)
+            st['channels'] = [a, rng.randint(a + 1, F)]
+        elif r < 0.4:
+            st['pol'] = rng.choice(['hh', 'vv', 'hv', 'h', 'v'])
+        elif r < 0.5 and not st:
+            st['reset'] = 1
+        if not st:
+            st['reset'] = 1
+        hist.append(st)
+    if force:
+        hist = [dict(s) for s in CONCAT_FIXED] + hist[:3]
+    cal = [None] * k
+    if set(fmts) == {'v4'}:
+        # v4 members with their own calibration products applied and lost chunks of any of the four arrays
+        for n in range(k):
+            if rng.random() < (0.75 if force else 0.4):
+                sub = gen_v4cal(rng, tier, force=dict(calmode=rng.choice(['G', 'GB', 'B']), nan=True, lose=True),
+                                fixed=dict(n_ant=2, T=T[n], F=F))
+                sub.pop('hist')
+                sub['shuffle_bls'] = False
+                cal[n] = sub
+    return dict(stream='concat', fmts=fmts, T=T, F=F, seed=rng.randrange(10 ** 6), pre=pre, order=order, hist=hist,
+                cal=cal, lose=[f == 'v4' and rng.random() < 0.6 for f in fmts],
+                index=[rng.choice([None, None, 2]), rng.choice([None, None, 2])])
+
+
+def _h5_cps(ants):
+    inputs = [a + p for a in ants for p in 'hv']
+    return [(inputs[i], inputs[j]) for i in range(len(inputs)) for j in range(i, len(inputs))]
+
+
+def build_concat(cfg, tmp):
+    """The members in time order: list of (data set, raw flag bytes as the member must expose them, closer)."""
+    import os
+    fmts, F = cfg['fmts'], cfg['F']
+    mixed = len(set(fmts)) > 1
+    members = []
+    for n, fmt in enumerate(fmts):
+        T = cfg['T'][n]
+        # mixed: one antenna (the v3 and v4 writers describe m000 identically), so that all members share the subarray
+        ants = ('m000',) if mixed else (('ant1', 'ant2') if fmt == 'v2' else ('m000', 'm001'))
+        B = 3 if mixed else (12 if fmt == 'v4' else 10)
+        rs = np.random.RandomState(cfg['seed'] + 7 * n)
+        fl = rs.permutation((np.arange(T * F * B) * 37 + 11 * n) % 256).astype(np.uint8).reshape(T, F, B)
+        fl.reshape(-1)[:8] = 1 << np.arange(8)           # every single-bit byte occurs in every member
+        sub = (cfg.get('cal') or [None] * len(fmts))[n]
+        if fmt == 'v4' and sub is not None:
+            x = open_v4cal(sub, os.path.join(tmp, 'p%d' % n), cbid='16%08d' % n, first_timestamp=100.0 + 1000.0 * n)
+            e = v4cal_expected(sub, x.stored, _v4cal_bls(sub))
+            # what the member must expose: stored byte (nothing where the flags chunk is lost) | data_lost | postproc
+            raw = (np.where(e['lostf'], 0, e['stored']) | np.where(e['lostf'] | e['lostv'] | e['lostw'], 8, 0)
+                   | np.where(e['calok'], 0, 128)).astype(np.uint8)
+            members.append((x.d, raw, None))
+        elif fmt == 'v4':
+            kw = dict(T=T, F=F, seed=cfg['seed'] + n, arrays={'flags': fl}, cbid='16%08d' % n, ants=ants,
+                      first_timestamp=100.0 + 1000.0 * n, tmp=os.path.join(tmp, 'p%d' % n),
+                      bandwidth=F * 1048576.0, center_freq=1284e6)        # the spectral window of the v4cal members
+            if mixed:
+                kw['bls_ordering'] = _h5_cps(ants)
+                kw['bandwidth'] = 856e6 / 4096 * F                           # the spectral window of the v3 writer
+                kw['sub_product'] = ''
+            raw = fl.copy()
+            if cfg['lose'][n]:
+                kw['chunks'] = {'correlator_data': (1, F, B)}
+                kw['lose'] = [('sdp_l0', 'correlator_data', (T - 1, 0, 0))]
+                raw[T - 1] |= np.uint8(8)
+            x = v4.build_v4(**kw)
+            members.append((x.d, raw, None))
+        else:
+            os.makedirs(os.path.join(tmp, 'h5'), exist_ok=True)
+            if fmt == 'v3':
+                d, _, _ = h5.open_v3(os.path.join(tmp, 'h5'), name='15%08d.h5' % n, T=T, F=F, flags=fl, seed=cfg['seed'] + n,
+                                     t0=1500000000.0 + 1000.0 * n, ants=ants, open_kwargs=dict(band='l'))
+            else:
+                d, _, _ = h5.open_v2(os.path.join(tmp, 'h5'), name='13%08d.h5' % n, T=T, F=F, flags=fl, seed=cfg['seed'] + n,
+                                     t0=1300000000.0 + 1000.0 * n)
+            members.append((d, fl, d.file))
+    return members
+
+
+def concat_py(cfg, upto):
+    """Fallback of wire 162 in Python (documented behaviour), used only while searching without a model binary."""
+    out = []
+    for i in range(upto + 1):
+        h = cfg['hist'][:i]
+        curf, curw = 'all', 'all'
+        per = [[None, None] for _ in cfg['fmts']]
+        for st in h:
+            if 'member' in st:
+                if 'flags' in st:
+                    per[st['member']][0] = _py_arg(st['flags'])
+                if 'weights' in st:
+                    per[st['member']][1] = _py_arg(st['weights'])
+            else:
+                curf = _py_arg(st['flags']) if 'flags' in st else curf
+                curw = _py_arg(st['weights']) if 'weights' in st else curw
+                per = [[None, None] for _ in cfg['fmts']]
+        rows = []
+        for n, fmt in enumerate(cfg['fmts']):
+            f = per[n][0] if per[n][0] is not None else curf
+            w = per[n][1] if per[n][1] is not None else curw
+            sm = spec_py(curf)[3 if fmt == 'v2' else 1]
+            mm = spec_py(f)[3 if fmt == 'v2' else 1]
+            won = lambda a: [0] * sum(1 for x in _names_py(a, ['precision']) if x == 'precision')   # noqa: E731
+            rows.append([mm, won(w) if fmt != 'v4' else [], sm, int(bool(won(curw)))])
+        out.append([int(not h or 'member' not in h[-1]), rows])
+    return out
+
+
+def _names_py(a, all_names):
+    if isinstance(a, str):
+        return [] if not a else (list(all_names) if a == 'all' else [n.strip() for n in a.split(',')])
+    return list(a)
+
+
+def run_concat(ctx, cfg):
+    from katdal.concatdata import ConcatenatedDataSet
+    tmp = v4.scratch_dir('c16cat')
+    fmts = cfg['fmts']
+    ftag = fmts[0] if len(set(fmts)) == 1 else 'mixed'      # kind of concatenation (the count is in the case)
+    members = []
+    hist = cfg['hist']
+    try:
+        try:
+            members = build_concat(cfg, tmp)
+            for (d, _, _), steps in zip(members, cfg['pre']):
+                for st in steps:
+                    d.select(**{k: _py_arg(v) for k, v in st.items()})
+            c = ConcatenatedDataSet([members[i][0] for i in cfg['order']])
+            if [id(d) for d in c.datasets] != [id(m[0]) for m in members]:
+                raise RuntimeError('members are not in time order')
+            if len(c.spectral_windows) != 1 or len(c.subarrays) != 1 or c.shape[0] != sum(cfg['T']):
+                raise RuntimeError('fixture: the members do not share one subarray / spectral window: %r' % (c.shape,))
+        except Exception as e:
+            ctx.disagree('stream=concat;fmts=%s;what=open_raises;exc=%s' % (ftag, type(e).__name__),
+                         dict(stream='concat', cfg=dict(cfg, hist=[])), repr(e)[:300], 'a data set',
+                         'building / concatenating the members raised')
+            return
+        mwire = [[FMT_CODE[f], [[_wire_opt(st, 'flags'), _wire_opt(st, 'weights')] for st in steps]]
+                 for f, steps in zip(fmts, cfg['pre'])]
+        hwire = [([1, st['member']] if 'member' in st else [0]) + [_wire_opt(st, 'flags'), _wire_opt(st, 'weights')]
+                 for st in hist]
+        if ctx.model_ok:
+            mo = ctx.model([[162, [2, mwire, hwire]]])[0]
+            _INCOQ.append(([162, [2, mwire, hwire]], mo))
+        else:
+            mo = concat_py(cfg, len(hist))
+        if mo == [-999] or len(mo) != len(hist) + 1:
+            ctx.disagree('stream=concat;what=model_error', dict(stream='concat', cfg=cfg), None, mo,
+                         'model returned an error', kind='tie')
+            return
+        seg = [int(s) for s in c._segments]
+        raw_all = np.concatenate([m[1] for m in members])
+        vis_all = np.asarray(c.vis[:]).copy()
+        wts_all = np.asarray(c.weights[:]).copy()
+        member_of = np.concatenate([np.full(seg[n + 1] - seg[n], n) for n in range(len(members))])
+        is_h5 = np.array([f != 'v4' for f in fmts])[member_of]
+        cur_f, cur_w = 'all', 'all'
+        s1, s2 = [slice(None) if x is None else slice(None, None, x) for x in cfg.get('index', [None, None])]
+        for i in range(-1, len(hist)):
+            st = hist[i] if i >= 0 else {}
+            case = dict(stream='concat', cfg=dict(cfg, hist=hist[:i + 1]), step=i)
+            ends_whole, rows = mo[i + 1]
+            on_member = 'member' in st
+            before = (c.dumps.tolist(), c.channels.tolist(), c.corr_products.tolist(), c.shape)
+            try:
+                kw = {k: _py_arg(v) for k, v in st.items() if k in ('flags', 'weights')}
+                if on_member:
+                    c.datasets[st['member']].select(**kw)
+                elif i >= 0:
+                    for k in ('dumps', 'channels'):
+                        if k in st:
+                            kw[k] = slice(*st[k])
+                    if 'pol' in st:
+                        kw['pol'] = st['pol']
+                    c.select(**kw)
+                ix = np.ix_(c.dumps, c.channels, np.nonzero(c._corrprod_keep)[0])
+                flags = np.asarray(c.flags[s1, s2])
+                vis = np.asarray(c.vis[s1, s2])
+                wts = np.asarray(c.weights[s1, s2])
+                mflags = [np.asarray(d.flags[:]) for d in c.datasets]
+                mraw = [np.asarray(d.raw_flags[:]) if f == 'v4' else None for d, f in zip(c.datasets, fmts)]
+                mmask = [int(np.asarray(d._flags_select).ravel()[0]) for d in c.datasets]
+                mwts = [[int(x) for x in d._weights_select] if f != 'v4' else [] for d, f in zip(c.datasets, fmts)]
+            except Exception as ex:
+                ctx.disagree('stream=concat;fmts=%s;what=raises;exc=%s' % (ftag, type(ex).__name__), case, repr(ex)[:300],
+                             'arrays', 'select() / reading flags, vis, weights of the concatenated data set raised')
+                return
+            if not on_member:
+                cur_f = st.get('flags', cur_f)
+                cur_w = st.get('weights', cur_w)
+            tag = 'fmts=%s;sel=%s;flags_kw_in_step=%s;last_call=%s' % (
+                ftag, _sel_class(cur_f), 'yes' if 'flags' in st else 'no',
+                'construction' if i < 0 else ('member' if on_member else 'whole'))
+            after = (c.dumps.tolist(), c.channels.tolist(), c.corr_products.tolist(), c.shape)
+            only_fw = i >= 0 and not (set(st) - {'flags', 'weights', 'member'})
+            if only_fw and before != after:
+                ctx.disagree('stream=concat;obs=selection_moved;' + tag, case, after[3], before[3],
+                             'a call carrying only flags= / weights= changed the time / frequency / product selection')
+            if flags.shape != vis_all[ix][s1, s2].shape or flags.dtype != bool:
+                ctx.disagree('stream=concat;obs=shape;' + tag, case, [flags.shape, str(flags.dtype)], list(c.shape),
+                             'shape / dtype of the flags of the concatenated data set')
+                return
+            fb = flags.view(np.uint8) != 0
+            n_before = len(ctx.disagreements)
+            if not np.array_equal(vis, vis_all[ix][s1, s2]):
+                ctx.disagree('stream=concat;obs=vis;' + tag, case, vis.shape, vis_all[ix].shape,
+                             'visibilities of the concatenated data set changed with the flag / weight selection')
+            raw_sel = raw_all[ix][s1, s2]
+            mem_sel = member_of[c.dumps][s1]
+            h5_sel = is_h5[c.dumps][s1]
+            # property (only when the last call went to the whole): spec columns; tie: model columns
+            for kind, col, wcol in (('property', 2, 3), ('tie', 0, 1)):
+                if kind == 'property' and not ends_whole:
+                    continue
+                if kind == 'tie' and len(ctx.disagreements) > n_before:
+                    break       # already reported against the spec: the model columns would only repeat it
+                sfx = '' if kind == 'property' else ';vs=model'
+                masks = np.array([r[col] for r in rows], dtype=np.uint8)
+                exp = (raw_sel & masks[mem_sel][:, None, None]) != 0
+                if not np.array_equal(fb, exp):
+                    bad = tuple(int(b) for b in np.argwhere(fb != exp)[0])
+                    ctx.disagree('stream=concat;obs=flags;%s%s' % (tag, sfx), dict(case, at=list(bad)),
+                                 bool(fb[bad]), bool(exp[bad]),
+                                 'boolean flags of the concatenated data set differ from (raw byte & mask of %r) != 0 '
+                                 '(member %d, raw byte %d)' % (_py_arg(cur_f), int(mem_sel[bad[0]]), int(raw_sel[bad])),
+                                 spec=int(rows[int(mem_sel[bad[0]])][2]), kind=kind)
+                won = np.array([bool(r[wcol]) for r in rows])
+                exp_w = np.where((won[mem_sel] | ~h5_sel)[:, None, None], wts_all[ix][s1, s2], np.float32(1.0))
+                if not np.array_equal(wts, exp_w):
+                    bad = tuple(int(b) for b in np.argwhere(wts != exp_w)[0])
+                    ctx.disagree('stream=concat;obs=weights;fmts=%s;wsel=%s;weights_kw_in_step=%s%s'
+                                 % (ftag, _sel_class(cur_w) if _sel_class(cur_w) != 'named' else 'precision',
+                                    'yes' if 'weights' in st else 'no', sfx), dict(case, at=list(bad)),
+                                 float(wts[bad]), float(exp_w[bad]),
+                                 'weights of the concatenated data set under the weight selection %r (HDF5 members: stored '
+                                 'weights iff "precision" is selected, else 1.0)' % (_py_arg(cur_w),), kind='tie')
+                if all(r[0] == r[2] and bool(r[1]) == bool(r[3]) for r in rows):
+                    break
+            # every member on its own: internal mask / weight selection, its own flags, v4 raw flags
+            for n, (d, f) in enumerate(zip(c.datasets, fmts)):
+                if len(ctx.disagreements) > n_before:
+                    break
+                mtag = '%s;member_fmt=%s' % (tag, f)
+                if ends_whole and mmask[n] != rows[n][2]:
+                    ctx.disagree('stream=concat;obs=member_mask;%s' % mtag, dict(case, member=n), mmask[n], rows[n][0],
+                                 'mask of a member differs from the bits of the names selected on the whole (%r)'
+                                 % (_py_arg(cur_f),), spec=rows[n][2])
+                elif mmask[n] != rows[n][0] or (f != 'v4' and mwts[n] != rows[n][1]):
+                    ctx.disagree('stream=concat;obs=member_selection;%s;vs=model' % mtag, dict(case, member=n),
+                                 [mmask[n], mwts[n]], [rows[n][0], rows[n][1]],
+                                 '_flags_select / _weights_select of a member differ from the model', spec=rows[n][2],
+                                 kind='tie')
+                t_sel = c.dumps[(c.dumps >= seg[n]) & (c.dumps < seg[n + 1])]
+                rix = np.ix_(t_sel, c.channels, np.nonzero(c._corrprod_keep)[0])
+                mf = mflags[n].view(np.uint8) != 0 if mflags[n].dtype == bool else mflags[n] != 0
+                if not np.array_equal(mf, (raw_all[rix] & np.uint8(rows[n][0])) != 0):
+                    ctx.disagree('stream=concat;obs=member_flags;%s;vs=model' % mtag, dict(case, member=n),
+                                 mf.shape, list(raw_all[rix].shape),
+                                 'boolean flags of a member differ from (raw & model mask) != 0', kind='tie')
+                if mraw[n] is not None and not np.array_equal(mraw[n], raw_all[rix]):
+                    ctx.disagree('stream=concat;obs=member_raw_flags;%s' % mtag, dict(case, member=n),
+                                 mraw[n].shape, list(raw_all[rix].shape),
+                                 'raw flags of a v4 member differ from stored | data_lost under the selection')
+            ctx.traces_validated += 1
+            if len(ctx.disagreements) > n_before:
+                return          # later steps of this case would only repeat it; the replay is this prefix
+            ctx.note_case(('concat', cfg['seed'], ftag, i, repr(st)),
+                          nontrivial=bool(raw_sel.any()) and len(c.dumps) > 0,
+                          sample=dict(stream='concat', fmts=fmts, step=st, masks=[r[0] for r in rows])
+                          if i == len(hist) - 1 else None)
+            ctx.count('concat_steps')
+            ctx.count('concat:sel=%s' % _sel_class(cur_f))
+            ctx.count('concat:last_call=%s' % ('construction' if i < 0 else ('member' if on_member else 'whole')))
+        ctx.count('concat:fmts=%s' % '+'.join(fmts))
+        ctx.count('concat:members_with_applycal', sum(1 for x in (cfg.get('cal') or []) if x))
+    finally:
+        for _, _, f in members:
+            try:
+                if f is not None:
+                    f.close()
+            except Exception:
+                pass
+        shutil.rmtree(tmp, ignore_errors=True)
